@@ -74,8 +74,8 @@ impl Registration {
     pub fn receive_success_response(&mut self, response: TsxResponse) {
         assert_eq!(response.line.code.kind(), CodeKind::Success);
 
-        if let Ok(expires) = response.headers.get_named::<Expires>() {
-            let expires = Duration::from_secs(expires.0 as _);
+        if let Some(expires) = granted_lifetime(&response, &self.contact) {
+            let expires = Duration::from_secs(expires as _);
 
             if self.expires != expires {
                 self.register_interval = create_reg_interval(expires);
@@ -110,6 +110,32 @@ impl Registration {
     pub async fn wait_for_expiry(&mut self) {
         self.register_interval.tick().await;
     }
+}
+
+/// Returns the lifetime of the binding the registrar reports in its response
+///
+/// The registrar lists the binding with an `expires` parameter holding the lifetime it has chosen,
+/// which takes precedence over the `Expires` header (RFC 3261 10.2.4). Most registrars
+/// send both, some only one of them.
+fn granted_lifetime(response: &TsxResponse, own: &Contact) -> Option<u32> {
+    let from_contact = response
+        .headers
+        .get_named::<Vec<Contact>>()
+        .ok()
+        .and_then(|bindings| {
+            bindings
+                .iter()
+                .find(|binding| binding.uri.uri.compare(&*own.uri.uri))
+                .and_then(|binding| binding.params.get_val("expires")?.parse().ok())
+        });
+
+    from_contact.or_else(|| {
+        response
+            .headers
+            .get_named::<Expires>()
+            .ok()
+            .map(|expires| expires.0)
+    })
 }
 
 fn create_reg_interval(period: Duration) -> Interval {
